@@ -3,6 +3,7 @@
 EXTENDS OCache
 AllKinds   == <<"Get", "Pick", "Add", "Remove", "RemoveSame", "TryRemove", "GC", "Close">>
 CoreKinds  == <<"Get", "Add", "Remove", "TryRemove", "Close">>
+FourKinds  == <<"Get", "Remove", "TryRemove", "Close">>
 CloserKinds == <<"Get", "Remove", "RemoveSame", "TryRemove", "Close">>
 Ids1       == <<"a">>
 Ids2       == <<"a", "b">>
